@@ -165,6 +165,14 @@ Theorem streamed_drop_disabled_refines : forall dated bs (f : file) ops, 0 < bs 
 Proof. exact CachesStreamProofs.streamed_nodrop_refines. Qed.
 Print Assumptions streamed_drop_disabled_refines.
 
+(* a tar member (every miss reads all blocks of the member again): every block can be read at any time, so EVERY
+   call history without cache drops is answered as the spec says, as for a plain file *)
+Theorem tar_member_refines : forall dated bs (f : file) ops, 0 < bs -> Forall op_nodrop ops ->
+  map (obs_cres bs f) (snd (c_run dated bs f (cinit_b b_init_tar) ops)) = map (spec_cobs dated f) ops /\
+  forallb (fun x => negb (cres_panicked x)) (snd (c_run dated bs f (cinit_b b_init_tar) ops)) = true.
+Proof. exact CachesStreamProofs.tar_refines. Qed.
+Print Assumptions tar_member_refines.
+
 (* with drops enabled: reading the newest block or any later block always succeeds and keeps the stream
    invariant SI (nothing read, cached or stored lies at or beyond the decoder; the newest block is stored) *)
 Theorem read_block_forward : forall refd filesz last b bo, SI b -> b_dec b <= bo + 1 -> bo <= last -> 0 < filesz ->
@@ -181,18 +189,117 @@ Print Assumptions read_block_gone.
 
 (* find_line at the begin of a line whose predecessor is known to the reader (shortcuts A0 / A1a / A1b, or a
    cache hit), at or after the newest block: the spec line, no block that is gone is needed, SI is kept.
-   This is every find_line call of a forward sweep (the stage driver's pattern).
-   NOT PROVED (full statement): streamed_driver_complete - for a streamed reader with drops enabled the stage
-   driver (block-zero analysis, first find at 0, then at each fo_next, drop_data_try after each message, any
-   plan) emits exactly `syslines dated f`.  Missing: the induction over find_sysline's loops and the driver
-   that shows every find_line call of that pattern meets the hypotheses below (the analogue of
-   CachesGateProofs for find_line); the check judges this pattern against the spec on every run. *)
-Theorem find_line_stream_forward_partial : forall bs (f : file) l fo l' r p, 0 < bs ->
+   This is every find_line call of a forward sweep (the stage driver's pattern, theorems below). *)
+Theorem find_line_stream_forward : forall bs (f : file) l fo l' r p, 0 < bs ->
   lr_inv0 bs f l -> lSI l -> fo < lenN f -> line_beg f fo = fo -> pred_known l fo -> ldec l <= blk bs fo + 1 ->
   c_find_line bs f l fo = (l', r, p) ->
   lr_inv0 bs f l' /\ lSI l' /\ lres_ok bs f fo r /\ ldec l <= ldec l' /\ ldec l' <= blk bs (line_end f fo) + 1.
 Proof. exact CachesStreamProofs.find_line_stream_forward. Qed.
-Print Assumptions find_line_stream_forward_partial.
+Print Assumptions find_line_stream_forward.
+
+(* ---------------------------------------------------------------------------------------------
+   The stage driver on a STREAMED reader with block drops ENABLED (the normal case of a .gz / .bz2 / .lz4 / .xz log
+   or a tar member whose timestamps carry a year).  The proofs (Proofs/CachesFwd*.v) are generic in the BLOCK DISCIPLINE
+   of the container - RD b k: every block from k on can be read, in ascending order; DN b j: block j was reached, so a
+   block at least two below it may be dropped - and instantiated (open_discipline) for
+     KSeq  .gz / .bz2 / .lz4  a sequential decoder; decoding a block drops the block visited before (look-behind drop)
+     KXz   .xz                decompressed and sliced at open; a block that is dropped is gone, the others stay
+     KTar  a tar member       every miss reads all blocks of the member again.
+   Invariant SFW S d g: g is the frontier of the forward reads (every line that begins in d .. g-1 is stored, nothing
+   beyond; every block from the block of g on can be read), d the horizon below which drop_data_try may have dropped
+   lines. *)
+From S4.Spec Require Import WindowSpec.
+From S4.Proofs Require Import CachesFwdProofs CachesFwdSysProofs CachesFwdRunProofs.
+
+(* the block disciplines exist for the three kinds of container, from the state BlockReader::new leaves *)
+Theorem streamed_block_discipline : forall (c : ckind) bs (f : file), 0 < bs ->
+  exists (RD DN : bstate -> N -> Prop),
+    (forall b k k', RD b k -> k <= k' -> RD b k') /\
+    (forall refd b k j, RD b k -> k <= j -> j <= blast bs f -> 0 < lenN f ->
+       exists b', b_read_block refd (lenN f) (blast bs f) b j = (b', BFound) /\ RD b' j /\ DN b' j /\
+                  (forall i, DN b i -> DN b' i)) /\
+    (forall refd b k j bo, RD b k -> DN b j -> j <= k -> bo + 2 <= j ->
+       RD (b_drop_block refd b bo) k /\ (forall i, DN b i -> DN (b_drop_block refd b bo) i)) /\
+    RD (b_open c bs (lenN f)) 0.
+Proof. exact CachesFwdRunProofs.open_discipline. Qed.
+Print Assumptions streamed_block_discipline.
+
+(* find_sysline at an offset between horizon and frontier that is 0, the begin of a message or the end of the file
+   (scursor): answered as the spec says, never Panic, the reader stays in the forward state; loop A does not step
+   back, loop B reads forward - no call needs a block that is gone.  The line after the message is stored (or the
+   message ends the file), which makes the returned offset the next such offset. *)
+Theorem streamed_find_sysline_forward : forall dated bs (f : file) (RD DN : bstate -> N -> Prop) S fo d g S' r p, 0 < bs ->
+  (forall b k k', RD b k -> k <= k' -> RD b k') ->
+  (forall refd b k j, RD b k -> k <= j -> j <= blast bs f -> 0 < lenN f ->
+     exists b', b_read_block refd (lenN f) (blast bs f) b j = (b', BFound) /\ RD b' j /\ DN b' j /\
+                (forall i, DN b i -> DN b' i)) ->
+  SFW dated bs f RD DN S d g -> scursor dated f d g fo -> c_find_sysline dated bs f S fo = (S', r, p) ->
+  r <> Panic /\ sres_ok dated bs f S fo r /\ sys_step dated bs f S S' r /\
+  exists g', g <= g' /\ SFW dated bs f RD DN S' d g' /\
+    (forall n s, r = Found (n, s) -> n = lenN f \/ stored_at (s_lr S') n).
+Proof. intros dated bs f RD DN S fo d g S' r p H A1 A2. exact (c_find_sysline_fw dated bs f H RD DN A1 A2 S fo d g S' r p). Qed.
+Print Assumptions streamed_find_sysline_forward.
+
+(* drop_data_try(p) with the horizon at the begin of p: every line it drops ends before p, in a block at least two
+   below the block of p (which was reached); the forward state is kept *)
+Theorem streamed_drop_data_try_forward : forall dated bs (f : file) (RD DN : bstate -> N -> Prop) S p pb pg g, 0 < bs ->
+  (forall refd b k j bo, RD b k -> DN b j -> j <= k -> bo + 2 <= j ->
+     RD (b_drop_block refd b bo) k /\ (forall i, DN b i -> DN (b_drop_block refd b bo) i)) ->
+  SFW dated bs f RD DN S pb g -> ssl_ok bs f p pb pg -> is_group dated f pb pg ->
+  SFW dated bs f RD DN (c_drop_data_try bs S p) pb g.
+Proof. intros dated bs f RD DN S p pb pg g H A3. exact (c_drop_data_try_fw dated bs f H RD DN A3 S p pb pg g). Qed.
+Print Assumptions streamed_drop_data_try_forward.
+
+(* THE DRIVER: block-zero analysis (any number of find_line_in_block and find_sysline_in_block calls from offset 0,
+   then at each returned offset), first find at 0, then at each fo_next, drop_data_try after each message, for every
+   container kind, block size, file, oracle (hypothesis of gate_then_refines) and drop plan: exactly the messages of
+   the file *)
+Theorem streamed_driver_complete : forall dated (c : ckind) bs (f : file) k1 k2 plan, 0 < bs ->
+  (forall b z, b < lenN f -> line_beg f b = b ->
+     dated (slice f b (b + 1)) = Some z -> dated (slice f b (line_end f b + 1)) = Some z) ->
+  obs_stream bs f (rmap (snd (c_stream dated bs f plan (c_gate dated k1 k2 bs f (sr_init_b (b_open c bs (lenN f))))))) =
+  Some (syslines dated f).
+Proof. exact CachesFwdRunProofs.streamed_driver_complete. Qed.
+Print Assumptions streamed_driver_complete.
+
+(* without block-zero analysis: for EVERY oracle *)
+Theorem streamed_driver_complete_fresh : forall dated (c : ckind) bs (f : file) plan, 0 < bs ->
+  obs_stream bs f (rmap (snd (c_stream dated bs f plan (sr_init_b (b_open c bs (lenN f)))))) = Some (syslines dated f).
+Proof. exact CachesFwdRunProofs.streamed_driver_complete_fresh. Qed.
+Print Assumptions streamed_driver_complete_fresh.
+
+(* THE WINDOW VARIANT: the datetime window A B of a streamed file is searched LINEARLY
+   (find_sysline_at_datetime_filter_linear_search: find_sysline at the offset, then at each returned offset while
+   the message lies before A; find_sysline_between_datetime_filters: Done when it lies after B), in stage 2 and
+   again in every iteration of stage 3.  The driver emits exactly win_scan A B (syslines dated f): the messages a
+   forward scan selects (skip while before A, stop at the first message after B) ... *)
+Theorem streamed_window_driver : forall dated (c : ckind) bs (f : file) k1 k2 fa fb plan, 0 < bs ->
+  (forall b z, b < lenN f -> line_beg f b = b ->
+     dated (slice f b (b + 1)) = Some z -> dated (slice f b (line_end f b + 1)) = Some z) ->
+  obs_stream bs f (rmap (snd (c_stream_win dated bs f fa fb plan
+                                (c_gate dated k1 k2 bs f (sr_init_b (b_open c bs (lenN f))))))) =
+  Some (win_scan fa fb (syslines dated f)).
+Proof. exact CachesFwdRunProofs.streamed_window_driver. Qed.
+Print Assumptions streamed_window_driver.
+
+Theorem streamed_window_driver_fresh : forall dated (c : ckind) bs (f : file) fa fb plan, 0 < bs ->
+  obs_stream bs f (rmap (snd (c_stream_win dated bs f fa fb plan (sr_init_b (b_open c bs (lenN f)))))) =
+  Some (win_scan fa fb (syslines dated f)).
+Proof. exact CachesFwdRunProofs.streamed_window_driver_fresh. Qed.
+Print Assumptions streamed_window_driver_fresh.
+
+(* ... which is exactly `window A B (syslines dated f)` (Spec/WindowSpec.v, both bounds inclusive) when the
+   messages of the file are in time order; on a file that is not, a message inside the window that follows a
+   message after B is not emitted (example win_scan_not_window) *)
+Theorem streamed_window_chronological : forall dated (c : ckind) bs (f : file) k1 k2 fa fb plan, 0 < bs ->
+  (forall b z, b < lenN f -> line_beg f b = b ->
+     dated (slice f b (b + 1)) = Some z -> dated (slice f b (line_end f b + 1)) = Some z) ->
+  nondecreasing (@fst Z (list (list N))) (syslines dated f) = true ->
+  obs_stream bs f (rmap (snd (c_stream_win dated bs f fa fb plan
+                                (c_gate dated k1 k2 bs f (sr_init_b (b_open c bs (lenN f))))))) =
+  Some (window (@fst Z (list (list N))) fa fb (syslines dated f)).
+Proof. exact CachesFwdRunProofs.streamed_window_chronological. Qed.
+Print Assumptions streamed_window_chronological.
 
 (* a backward call on a streamed reader with drops enabled is NOT answered (the plain reader answers it) *)
 Theorem streamed_backward_refuted :
